@@ -199,6 +199,21 @@ func (d deviation) mutator(p *ref.Peer, r *mon.RNG, pki *tlsPKI) func(step strin
 			return append(out, def...)
 		case "prepend-appdata":
 			return append([]ref.Item{{RecType: ref.RecAppData, Data: []byte("GET / HTTP/1.0\r\n\r\n")}}, def...)
+		case "cke-asn1":
+			// the ASN.1 SM2 ciphertext inside ClientKeyExchange after one structure-preserving edit (arg = index into the list of
+			// DER tree edits: integers padded, negated, cut, enlarged by one or two significant octets, members dropped /
+			// doubled / rotated, extra INTEGER members): the server must refuse it whatever its fixed-width helpers assume
+			if len(def) == 0 || def[0].RecType != ref.RecHandshake || len(def[0].Data) < 7 || def[0].Data[0] != ref.HSClientKeyExchange {
+				return def
+			}
+			body := def[0].Data[4:]
+			blob := body[2:]
+			edits := derTreeEdits(blob, nil, 0)
+			if d.arg >= len(edits) {
+				return def
+			}
+			nb := edits[d.arg]
+			return []ref.Item{hs(ref.HSMsg(ref.HSClientKeyExchange, append([]byte{byte(len(nb) >> 8), byte(len(nb))}, nb...)))}
 		case "prepend-empty-record-of-type":
 			// a record of the given content type with NO content in front of the step's own records: application data has no
 			// place in a handshake however little of it there is, and an empty alert or CCS is malformed
@@ -593,6 +608,11 @@ func runC15(c *Ctx) {
 			if st == ref.StCertificate || st == ref.StClientCertificate {
 				for v := 0; v < 6; v++ {
 					add("certs", v, 0)
+				}
+			}
+			if st == ref.StClientKeyExchange {
+				for v := 0; v < 64; v++ {
+					add("cke-asn1", v, 0)
 				}
 			}
 			for _, ht := range hsTypes {
